@@ -261,6 +261,10 @@ func Build(w *WF, rt *Runtime) *sp.Workflow {
 
 // Program is what the main goroutine of an incarnation executes.
 func Program(w *WF, rt *Runtime) {
+	// every incarnation starts as a fresh OS process would: package-level
+	// state of the library is re-initialised (generated by the rewriter)
+	sp.SimResetGlobals()
+	components.SimResetGlobals()
 	sp.InitLogError()
 	wf := Build(w, rt)
 	switch {
